@@ -221,10 +221,11 @@ func genCarrier(t *rapid.T, allowBefore bool) ref.Carrier {
 	if allowBefore {
 		nb := rapid.SampledFrom([]int{0, 0, 0, 1, 2}).Draw(t, "nbefore")
 		for i := 0; i < nb; i++ {
-			tid := rapid.SampledFrom([]byte{0x00, 0x01, 0x03, 0x40, 0x42, 0xC8, 0xFC, 0xFE}).Draw(t, "before-tid")
+			tid := rapid.SampledFrom([]byte{0x00, 0x01, 0x03, 0x04, 0x05, 0x06, 0x07, 0x40, 0x42, 0xC8, 0xFC, 0xFE}).Draw(t, "before-tid")
 			n := rapid.IntRange(5, 60).Draw(t, "before-len") // the long section syntax has five bytes between section_length and the data
-			if tid >= 0x40 && rapid.IntRange(0, 5).Draw(t, "before-long") == 0 {
-				// private sections (table ids from 0x40) may be up to 4093 bytes behind the length field (12 bits); the ISO tables stay within 1021
+			if (tid >= 0x40 || (tid >= 0x04 && tid <= 0x07)) && rapid.IntRange(0, 5).Draw(t, "before-long") == 0 {
+				// private sections (table ids from 0x40) and the ISO 14496 / metadata / IPMP sections (0x04..0x07) may be up to 4093
+				// bytes behind the length field (12 bits); the other ISO tables stay within 1021
 				n = rapid.SampledFrom([]int{1017, 1018, 1019, 1020, 1021, 1500, 2044, 4089}).Draw(t, "before-long-len")
 			}
 			c.Before = append(c.Before, ref.ForeignSection(tid, genBytes(t, n, n, "before-body")))
